@@ -174,6 +174,22 @@ def sweep(ctx, rep, model, focus):
             judge(ctx, rep, spec, pristine, ptree, [op], None, False, batch, pend, focus, fault, cls, lv)
             if len(rep.violations) >= 15:
                 break
+        # bytes put ahead of the only FAB of a binary file, with the recorded offset moved along: the level header and the FAB
+        # header still agree, but the file's layout (and length) no longer is what the level header describes
+        for lv in range(nlev):
+            view = tastelib.level_view(ptree, lv)
+            fabs = [view["lines"][view["fab0"] + b].split() for b in range(view["n"])]
+            for b, t in enumerate(fabs):
+                if len(t) == 3 and sum(1 for u in fabs if u[1] == t[1]) == 1 and t[2] == "0":
+                    # (bytes without a line end become part of the header line's first token, which the lenient header parse
+                    # of validator and reader alike ignores: an edit of the header text, counted but not judged; bytes that
+                    # end in a line end make the file start with a line that is no FAB header: certainly a fault)
+                    for junk, flt in (("41424344454647", None), ("0a", True), ("4641420a", True), ("00000000000000000a", True)):
+                        ops2 = [{"op": "insert", "file": f"Level_{lv}/{t[1]}", "pos": 0, "hex": junk},
+                                {"op": "line_set", "file": f"Level_{lv}/Cell_H", "line": view["fab0"] + b,
+                                 "text": f"FabOnDisk: {t[1]} {len(junk) // 2}"}]
+                        judge(ctx, rep, spec, pristine, ptree, ops2, None, False, batch, pend, focus, flt, "junk-ahead-of-only-fab+offset", lv)
+                    break
         # level limits: faults above the limit are outside the validated levels
         if nlev > 1:
             for op, lv, fault, cls in ops[:: max(1, len(ops) // 60)]:
